@@ -450,13 +450,14 @@ Definition out_trace (nl : netlist) (o : wid) (k : nat) : list Z :=
 
 (* copy_block as the code stands: the copy of a design whose register has
    reset_value 5 shows [0;1] on the output where the source shows [5;6] *)
-Lemma copy_reset_refuted_asis ck :
+Lemma copy_reset_refuted_of ck :
   ck (KReg (Some 5)) = KReg None -> (forall v, ck (KConst v) = KConst v) ->
   ck KWire = KWire -> ck KOutput = KOutput ->
-  let '(cp, f) := copy_with ck f2_nl in
-  out_trace f2_nl 5 2 = [5; 6] /\ out_trace cp (f 5) 2 = [0; 1]
-  /\ fst (copy_with ck f2_nl) <> rename f f2_nl.
+  out_trace f2_nl 5 2 = [5; 6]
+  /\ out_trace (fst (copy_with ck f2_nl)) (snd (copy_with ck f2_nl) 5) 2 = [0; 1]
+  /\ fst (copy_with ck f2_nl) <> rename (snd (copy_with ck f2_nl)) f2_nl.
 Proof.
-  intros H1 H2 H3 H4. unfold copy_with, f2_nl. cbn [wires nets mems map clone_wire wname wwidth wkind].
+  intros H1 H2 H3 H4. unfold copy_with, f2_nl.
+  cbn [fst snd wires nets mems map]. unfold clone_wire. cbn [wname wwidth wkind].
   rewrite H1, H2, H3, H4. vm_compute. repeat split; try reflexivity. intro H. discriminate H.
 Qed.
